@@ -9,7 +9,7 @@ def pendOf (q : List Msg) : Name → Nat := fun n => q.count (.rep n)
 structure FInv (inp : RunInput) (f : FSys) : Prop where
   b2 : Inv2 inp f.base
   b3 : Inv3 inp f.base
-  fb : FBase (pendOf f.fq) f.base
+  fb : FBase inp (pendOf f.fq) f.base
   q3 : f.fq.filterMap Msg.resName = f.base.resQ
   q1 : ∀ pre post n, f.fq = pre ++ Msg.res n :: post → Msg.rep n ∉ post
   q2 : ∀ n, Msg.rep n ∈ f.fq → stOf f.base n = .run
@@ -56,9 +56,9 @@ theorem gReturn_resQ (s : Sys) (job : Job) (ret : Ret) : (gReturn s job ret).res
   | feedLoop k => simp only []; split <;> (try split) <;> rfl
 
 /-- a step of the main process that does not take a result from the queue -/
-theorem mainStep_fbase {inp : RunInput} {pend : Name → Nat} {s s' : Sys} {perm : List Name} (h : FBase pend s)
+theorem mainStep_fbase {inp : RunInput} {pend : Name → Nat} {s s' : Sys} {perm : List Name} (h : FBase inp pend s)
     (h2 : Inv2 inp s) (h3 : Inv3 inp s) (hnot : ¬ atGet s) (hs : mainStep inp s perm = some s') :
-    FBase pend s' ∧ s'.resQ = s.resQ ∧
+    FBase inp pend s' ∧ s'.resQ = s.resQ ∧
       (∀ x, stOf s' x ≠ stOf s x → cStart s x = 0) := by
   unfold mainStep at hs
   cases hr : s.rpc with
@@ -94,7 +94,7 @@ theorem mainStep_fbase {inp : RunInput} {pend : Name → Nat} {s s' : Sys} {perm
           have hgo : cGo s n = 0 := h3.z haw n hsu
           have hstart : cStart s n = 0 := by have := h3.j n; omega
           have key : selDecision inp n nd ≠ .assertFail →
-              FBase pend (applySel inp s n nd (selDecision inp n nd)) ∧
+              FBase inp pend (applySel inp s n nd (selDecision inp n nd)) ∧
               (applySel inp s n nd (selDecision inp n nd)).resQ = s.resQ ∧
               (∀ x, stOf (applySel inp s n nd (selDecision inp n nd)) x ≠ stOf s x → cStart s x = 0) := by
             intro hne
@@ -182,7 +182,7 @@ theorem pendOf_snoc_res (n : Name) (q : List Msg) : pendOf (q ++ [Msg.res n]) = 
 theorem init_finv (inp : RunInput) : FInv inp (finit inp) := by
   refine ⟨init_inv2 inp, init_inv3 inp, ?_, rfl, ?_, ?_⟩
   · have : pendOf ([] : List Msg) = fun _ => 0 := by funext x; rfl
-    show FBase (pendOf []) (init inp); rw [this]; exact init_fbase inp
+    show FBase inp (pendOf []) (init inp); rw [this]; exact init_fbase inp
   · intro pre post n h; cases pre <;> cases h
   · intro n h; cases h
 
@@ -275,7 +275,7 @@ theorem fstep_inv {inp : RunInput} (hp : inp.runner = .process) {f f' : FSys} {c
         simp only [hw, Option.some.injEq] at hd'; subst hd'
         obtain ⟨a1, a2, a3⟩ := h3.w1 w n hw
         refine ⟨i2, i3, ?_, ?_, ?_, ?_⟩
-        · show FBase (pendOf (f.fq ++ [Msg.res n])) _
+        · show FBase inp (pendOf (f.fq ++ [Msg.res n])) _
           rw [pendOf_snoc_res]
           exact fbase_fin (n := n) (w := w) hb a3 (by omega) rfl (fun _ => rfl) rfl
         · show (f.fq ++ [Msg.res n]).filterMap Msg.resName = f.base.resQ ++ [n]
@@ -358,7 +358,7 @@ theorem fstep_inv {inp : RunInput} (hp : inp.runner = .process) {f f' : FSys} {c
               have hrun : nd.status = .run := by simpa [stOf, hn] using qb
               have hterm : cTerm f.base k = 0 := h3.t k (by rw [qb]; rfl)
               have hp0 := (h3.p0 k).2
-              have hmid : FBase (pendOf f.fq) { f.base with resQ := q.filterMap Msg.resName } :=
+              have hmid : FBase inp (pendOf f.fq) { f.base with resQ := q.filterMap Msg.resName } :=
                 hb.same rfl (fun _ => rfl) rfl
               have hres := fbase_result (inp := inp) (s := { f.base with resQ := q.filterMap Msg.resName }) hmid hn hrun
                 hterm (by show cFin f.base k ≥ 1; omega) (by show cStart f.base k ≥ 1; omega) hpend
@@ -367,7 +367,7 @@ theorem fstep_inv {inp : RunInput} (hp : inp.runner = .process) {f f' : FSys} {c
               simp only [hget.1] at hres hfr hstp
               refine ⟨i2, i3, ?_, ?_, ?_, ?_⟩
               · have : pendOf q = pendOf f.fq := by rw [hq, pendOf_res_cons]
-                show FBase (pendOf q) _
+                show FBase inp (pendOf q) _
                 rw [this]; exact hres.same rfl (fun _ => rfl) rfl
               · show q.filterMap Msg.resName = (processResult inp _ k nd).resQ
                 rw [hfr.2.2.2.2.2.2.1]
